@@ -332,6 +332,9 @@ class Backend(Harness):
             return lambda: H.has_backend(last)
         if op == "get_backend":
             return lambda: H.get_backend()
+        if op == "set_builtin":
+            # the application's explicit choice: whatever the other thread's first use does, it is in force afterwards
+            return lambda: H.set_backend("builtin")
         raise KeyError(op)
 
     def post(self, st):
@@ -977,6 +980,8 @@ def harness_specs(quick):
         add(f"backend_{hn}", ("hash", "verify"), b2)
         add(f"backend_{hn}", ("verify", "has_backend"), b2)
     add("backend_bcrypt", ("hash", "verify"), 1)
+    add("backend_md5_crypt", ("set_builtin", "get_backend"), b2)
+    add("backend_sha256_crypt", ("set_builtin", "hash"), b2)
     add("lazy_wrapper", ("ident", "ident_values"), b2)
     add("lazy_wrapper", ("ident", "ident"), b2)
     add("lazy_wrapper", ("identify", "ident_values"), b2)
